@@ -522,6 +522,10 @@ func main() {
 		c := &cases[i]
 		switch c.Kind {
 		case "chan":
+			// crash journal: the store runs in this process; should it kill it, the driver names this case
+			if b, err := json.Marshal(c); err == nil {
+				os.WriteFile(a.Out+"/current.json", b, 0o644)
+			}
 			runChan(c)
 		default:
 			wg.Add(1)
@@ -538,6 +542,7 @@ func main() {
 			}(i)
 		}
 	}
+	os.Remove(a.Out + "/current.json")
 	wg.Wait()
 
 	// ---- oracle + emission
